@@ -192,6 +192,7 @@ class Network:
                     # This would be a programmer "error", but we will allow it.
                     self.verified_peers.add(peer)
                     self.verified_by_public_key_bin[peer.public_key.key_to_bin()] = peer
+                    self._refresh_service_cache(peer)
                     list(map(methodcaller("on_peer_added", peer), self.peer_observers))
             elif all(address not in self.blacklist for address in peer.addresses.values()):
                 for address in peer.addresses.values():
@@ -200,7 +201,21 @@ class Network:
                 if peer not in self.verified_peers:
                     self.verified_peers.add(peer)
                     self.verified_by_public_key_bin[peer.public_key.key_to_bin()] = peer
+                    self._refresh_service_cache(peer)
                     list(map(methodcaller("on_peer_added", peer), self.peer_observers))
+
+    def _refresh_service_cache(self, peer: Peer) -> None:
+        """
+        Enter a newly verified peer (this instance) into the cached peer lists of the services it already advertised.
+
+        :param peer: the peer that was just added to the verified peers.
+        """
+        for service in self.services_per_peer.get(peer.public_key.key_to_bin(), ()):
+            service_cache = self.reverse_service_lookup.get(service)
+            if service_cache is not None:
+                if peer in service_cache:
+                    service_cache.remove(peer)
+                service_cache.append(peer)
 
     def register_service_provider(self, service_id: Service, overlay: Overlay) -> None:
         """
